@@ -62,10 +62,14 @@ def run(tier, seed):
                     lines.append(f'{kind} {G.phex(a)} {x} {G.phex(r)}')
                     labels.append('exhaustive-small:' + kind)
                     info.append((kind, a, x, r))
-    nrand = 6000 if quick else 200000
+    nrand = 12000 if quick else 1000000
     for _ in range(nrand):
         meta = rng.random() < 0.4
         a = G.gen_pat(rng, rng.choice([1, 2, 3, 4]), names=3, meta=meta, subst=meta)
+        if meta and rng.random() < 0.3:
+            a = G.gen_mvar(rng, 3, rich=True)
+            if rng.random() < 0.4:
+                a = (rng.choice(['ESub', 'SSub']), a, rng.randrange(3), G.gen_pat(rng, 1, 3, meta=False))
         r = G.gen_pat(rng, rng.choice([0, 1, 2]), names=3, meta=meta and rng.random() < 0.5, subst=False)
         x = rng.randrange(3)
         kind = rng.choice(['SE', 'SS'])
@@ -94,6 +98,13 @@ def run(tier, seed):
     bad = []
     for (kind, a, x, rr), ln, lab, ro in zip(info, lines, labels, r):
         R.case(ln, nontrivial=(ro != 'REJECT'), kind=lab + (':ok' if ro != 'REJECT' else ':rej'))
+        if kind != 'I' and a[0] in ('MVar', 'ESub', 'SSub') and ro != 'REJECT':
+            # deferred on metavariables and pending substitutions: the result is exactly the wrapped node
+            want = ('ESub' if kind == 'SE' else 'SSub', a, x, rr)
+            got = G.dec(G.unhex(ro))
+            if got != want:
+                bad.append(('not-deferred-on-metavariable', kind, a, x, rr, got, want))
+            continue
         if kind == 'I' or not O.concrete(a) or not O.concrete(rr):
             continue
         ref, cap = (O.subst_e if kind == 'SE' else O.subst_s)(a, x, rr)
